@@ -106,6 +106,8 @@ def _typed(v, t=None):
     if isinstance(v, float):
         if math.isinf(v) or math.isnan(v) or abs(v) > 1e15:
             raise Overflow()
+        if v == 0.0 and not QUIRKS:
+            raise Overflow()  # a real zero may be -0.0 in the engine (association order); how that prints is not documented
         return (v, "R")
     if t is None:
         t = "N" if v >= 0 else "I"
@@ -158,6 +160,9 @@ def _eval(e):
     t = _promote(ta, tb)
     if t == "R" or op == "/":
         MAXMAG[0] = max(MAXMAG[0], abs(float(a)), abs(float(b)))
+        for x in (a, b):
+            if isinstance(x, int) and abs(x) > 2 ** 53:
+                raise Overflow()  # not exactly representable as a real: the result would depend on rounding order
     if t == "I":
         # a signed computation: both operands must fit the signed range
         _typed(a, "I")
@@ -171,6 +176,8 @@ def _eval(e):
     if op == "/":
         if b == 0:
             return NOVALUE
+        if a == 0 and b < 0:
+            raise Overflow()  # IEEE gives -0.0
         return _typed(float(Fraction(a) / Fraction(b)))
     if op == "%":
         ia = int(_cmp_operand(a)) if isinstance(a, int) else int(a)
